@@ -152,6 +152,10 @@ def replay_traces(items):
     with open(path, 'w') as f:
         for it in items:
             f.write(json.dumps({'cfg': it['cfg'], 'labels': it['labels']}) + '\n')
+    # a kept trace carries its profile only: the paused-clock harness wrote the 'h2' ones
+    for it in items:
+        if it.get('profile') == 'h2' and not it.get('kind'):
+            it['kind'] = 'h2'
     h2 = bool(items) and items[0].get('kind') == 'h2'
     p = subprocess.run([BIN2 if h2 else BIN, 'replay', path], stdout=subprocess.PIPE, stderr=subprocess.PIPE, text=True, timeout=3000)
     os.remove(path)
